@@ -17,6 +17,8 @@ enum Op {
     Truncate(u64),
     Reopen,
     Crash(u64, u64),
+    /// retrieve(i) alone: leaves the cursor of the data file it reads behind item i
+    Read(u64),
 }
 
 type ItemObs = Option<Option<Vec<u8>>>;
@@ -28,6 +30,13 @@ fn op_coq(o: &Op) -> String {
         Op::Truncate(i) => format!("OTruncate {}", coq_nat(*i)),
         Op::Reopen => "OReopen".into(),
         Op::Crash(ib, c) => format!("OCrash {} {}", coq_nat(*ib), coq_nat(*c)),
+        Op::Read(_) => panic!("reads only occur in histories rendered with cop_coq"),
+    }
+}
+fn cop_coq(o: &Op) -> String {
+    match o {
+        Op::Read(i) => format!("CRead {}", coq_nat(*i)),
+        o => format!("CO ({})", op_coq(o)),
     }
 }
 fn op_json(o: &Op) -> Value {
@@ -36,6 +45,7 @@ fn op_json(o: &Op) -> Value {
         Op::Truncate(i) => json!({"truncate": i}),
         Op::Reopen => json!("reopen"),
         Op::Crash(ib, c) => json!({"crash": {"index_bytes": ib, "head_file_bytes": c}}),
+        Op::Read(i) => json!({"read": i}),
     }
 }
 fn item_coq(i: &ItemObs) -> String {
@@ -176,6 +186,7 @@ fn run_history(
                     }
                 };
             }
+            Op::Read(_) => {}
             Op::Crash(ib, c) => {
                 let _ = f.sync_all();
                 drop(f);
@@ -237,7 +248,36 @@ fn run_history(
                 spec = d.iter().filter_map(|i| i.clone().flatten()).collect();
             }
         }
+        // a lone read after the observation: the next operation finds the read cursor behind item i
+        if let Op::Read(i) = op {
+            let got = f.retrieve(*i).ok();
+            let want: ItemObs = if *i >= 1 && (*i as usize) <= spec.len() { Some(Some(spec[*i as usize - 1].clone())) } else { Some(None) };
+            if got != want {
+                viol.push(Violation { what: format!("retrieve({i}) alone does not return the appended item"), detail: json!({"case": ctx, "step": step}) });
+            }
+        }
         out.push(Some((n, d)));
+    }
+    out
+}
+
+/// the same history with lone reads inserted (biased to items that are not the newest)
+fn with_reads(r: &mut Rng, ops: &[Op], stats: &mut BTreeMap<String, u64>) -> Vec<Op> {
+    let mut out = Vec::new();
+    let mut count: u64 = 0;
+    for op in ops {
+        match op {
+            Op::Append(_) => count += 1,
+            Op::Truncate(i) => { if *i >= 1 && *i < count { count = *i; } }
+            Op::Crash(..) => { count = count.saturating_sub(1); }
+            _ => {}
+        }
+        out.push(op.clone());
+        if count >= 1 && r.chance(2, 5) {
+            let i = match r.below(6) { 0 => count, 1 => count + 1, 2 => 0, _ => r.range(1, std::cmp::max(1, count.saturating_sub(1))) };
+            *stats.entry("op_read".into()).or_default() += 1;
+            out.push(Op::Read(i));
+        }
     }
     out
 }
@@ -308,6 +348,7 @@ fn gen_history(r: &mut Rng, max: u64, nops: usize, small: bool, with_crash: bool
             Op::Truncate(_) => "truncate",
             Op::Reopen => "reopen",
             Op::Crash(..) => "crash",
+            Op::Read(_) => "read",
         };
         *stats.entry(format!("op_{tag}")).or_default() += 1;
         ops.push(op);
@@ -323,6 +364,7 @@ fn parse_ops(v: &Value) -> Vec<Op> {
         if o == "reopen" { Op::Reopen }
         else if let Some(a) = o.get("append") { Op::Append(unhex(a.as_str().unwrap())) }
         else if let Some(t) = o.get("truncate") { Op::Truncate(t.as_u64().unwrap()) }
+        else if let Some(t) = o.get("read") { Op::Read(t.as_u64().unwrap()) }
         else { let c = &o["crash"]; Op::Crash(c["index_bytes"].as_u64().unwrap(), c["head_file_bytes"].as_u64().unwrap()) }
     }).collect()
 }
@@ -370,12 +412,13 @@ fn main() {
     let n_sweep = if thorough { 600 } else { 48 };
     let n_comp = if thorough { 1500 } else { 120 };
     let shards = 16usize;
-    let header = "From CKB Require Import Freezer.Files Freezer.Machine.";
+    let header = "From CKB Require Import Freezer.Files Freezer.Machine Freezer.Cursor.";
     let mut files: Vec<CaseFile> = (0..shards)
         .map(|i| {
             let mut cf = CaseFile::new(&out, &format!("cases_{:02}", i), header);
             cf.group("hist", "hist_case", "check_hist");
             cf.group("sweep", "sweep_case", "check_sweep");
+            cf.group("chist", "chist_case", "check_chist");
             cf
         })
         .collect();
@@ -423,6 +466,33 @@ fn main() {
         if samples.len() < 3 {
             samples.push(d);
         }
+    }
+
+    // ---- stream 1b: histories with lone reads in between (the read handle of the head file
+    //      shares its cursor with the write handle); the F12 witness runs first
+    let f12: Vec<Op> = vec![Op::Append(vec![1; 4]), Op::Append(vec![2; 4]), Op::Read(1), Op::Append(vec![3; 4])];
+    let mut read_inputs: Vec<(u64, Vec<Op>)> = vec![(100, f12)];
+    for _ in 0..n_hist {
+        let max = *rng.pick(&[6u64, 9, 16, 30, 50, 64, 120]);
+        let nops = rng.range(4, if thorough { 30 } else { 16 }) as usize;
+        let base = gen_history(&mut rng, max, nops, max <= 16, true, &mut stats);
+        let ops = with_reads(&mut rng, &base, &mut stats);
+        read_inputs.push((max, ops));
+    }
+    for (ci, (max, ops)) in read_inputs.iter().enumerate() {
+        let ctx = json!({"stream": "history-with-reads", "max_file_size": max, "compression": false,
+                         "ops": ops.iter().map(op_json).collect::<Vec<_>>()});
+        let obs = run_history(&scratch.join("hr"), *max, false, ops, &mut viol, &ctx);
+        evaluations += 1;
+        if ops.iter().filter(|o| matches!(o, Op::Append(_))).count() >= 2 && ops.iter().any(|o| matches!(o, Op::Read(_))) {
+            distinct.insert(format!("r{:?}", (max, ops)));
+        }
+        let sh = ci % shards;
+        let case = format!("mkCHist {} {} {}", coq_nat(*max), coq_list(&ops[..obs.len().min(ops.len())], cop_coq), coq_list(&obs, obs_coq));
+        files[sh].push(2, case);
+        let mut d = ctx.clone();
+        d["observed"] = json!(obs.iter().map(obs_json).collect::<Vec<_>>());
+        descs[sh].entry("chist".into()).or_default().push(d);
     }
 
     // ---- stream 2: exhaustive crash-cut sweeps on small disks -------------
@@ -524,6 +594,13 @@ fn main() {
                 let get = |k: u64| blocks.get(k as usize).cloned();
                 let fz = Freezer::open(dir.clone()).expect("open");
                 let t1 = rng.range(2, n);
+                if t1 > 2 && rng.chance(2, 3) {
+                    // two passes in one process with a lone read of an older block in between
+                    let ta = rng.range(2, t1 - 1);
+                    fz.freeze(ta, get).expect("freeze");
+                    let k = rng.range(1, ta - 1);
+                    if fz.retrieve(k).ok().flatten().as_deref() != Some(blocks[k as usize].data().as_slice()) { errs.push(format!("retrieve({k}) between two passes is not the frozen block")); }
+                }
                 fz.freeze(t1, get).expect("freeze");
                 if fz.number() != t1 { errs.push(format!("after freeze({t1}) number() = {}", fz.number())); }
                 for k in 1..t1 { if fz.retrieve(k).ok().flatten().as_deref() != Some(blocks[k as usize].data().as_slice()) { errs.push(format!("retrieve({k}) is not the frozen block")); } }
@@ -577,7 +654,7 @@ fn main() {
         "seed": seed,
         "evaluations": evaluations,
         "distinct_nontrivial": distinct.len(),
-        "rule": "histories of append/truncate/reopen/crash-cut over max_file_size in {6..120} (distinct = distinct (max, op list); non-trivial = at least two appends); sweeps enumerate every (index length, head file length) cut around the last four index entries of a small disk; a block-level stream drives Freezer::{open, freeze, truncate, retrieve} with real packed blocks (parent-hash linkage, tip re-derivation after re-open and crash cuts)",
+        "rule": "histories of append/truncate/reopen/crash-cut over max_file_size in {6..120} (distinct = distinct (max, op list); non-trivial = at least two appends); the same with lone retrieve(i) calls of older items inserted between the operations (a read moves the cursor the head file's write handle shares); sweeps enumerate every (index length, head file length) cut around the last four index entries of a small disk; a block-level stream drives Freezer::{open, freeze, truncate, retrieve} with real packed blocks (parent-hash linkage, tip re-derivation after re-open and crash cuts)",
         "distribution": stats,
         "samples": samples,
         "impl_violations": viol.iter().map(|v| json!({"what": v.what, "detail": v.detail})).collect::<Vec<_>>(),
